@@ -8,7 +8,7 @@ Definition clean (a : astate) : Prop :=
 Section facts.
   Context (fx ok : bool) (a : astate) (e : event) (a' : astate) (os : list out) (ob : list obs).
   Context (Hstep : actor_step fx ok a e = Some (a', os, ob)).
-  Context (Hk : a_kind a = ABuild).
+  Context (Hk : a_kind a <> AAggregate).
 
   (* a build that was not clean becomes clean only by starting *)
   Lemma step_clean_by_start : ~ clean a -> clean a' -> ObStart (a_id a) ∈ ob.
@@ -35,9 +35,9 @@ Section facts.
   Qed.
 
   (* a success is observed only at the completion of a run in progress *)
-  Lemma step_succ_was_ongoing y : ObSucc y ∈ ob -> ongoing a = true /\ y = a_id a.
-  Proof using Hstep Hk.
-    clear -Hstep Hk. intros Hin. crush_step Hstep; aproj_all; try congruence; split_elem Hin; try done.
+  Lemma step_succ_was_ongoing y : a_kind a = ABuild -> ObSucc y ∈ ob -> ongoing a = true /\ y = a_id a.
+  Proof using Hstep.
+    clear -Hstep. intros Hk Hin. crush_step Hstep; aproj_all; try congruence; split_elem Hin; try done.
     all: bool_hyps; split; [first [assumption | by destruct (ongoing a)]|done].
   Qed.
 End facts.
